@@ -746,8 +746,10 @@ Qed.
 
 Lemma do_filter_str_defined md esc f b t v : do_filter md esc f (VStr b t) [] = Ok v -> is_strict_undef v = false.
 Proof.
-  unfold do_filter.
-  repeat match goal with |- context [if ?x then _ else _] => destruct x end; destruct md; cbn; intros H; inversion H; try reflexivity.
+  unfold do_filter, str_input.
+  repeat match goal with |- context [if ?x then _ else _] => destruct x end; destruct md; cbn;
+    repeat match goal with |- context [match ?x with _ => _ end] => destruct x end;
+    intros H; inversion H; try reflexivity.
 Qed.
 
 End SimStmtBase.
